@@ -42,7 +42,7 @@ def plan(ctx):
   return [('dia', ctx.thorough, i, nsh) for i in range(nsh)]
 
 
-FACTS = {'AB': {'A': [(1, 2), (2, 1), (2, 2)], 'B': [(1,), (2,)]}, 'U4': {'A1': [(1,), (2,)], 'B1': [(2,), (3,)], 'C1': [(3,), (3,)], 'D1x': [(3,), (1,)]}, 'E': {'E': [(1, 2), (2, 3), (3, 1)]}}
+FACTS = {'ABS': {'A': [(1, 2), (2, 1), (2, 2)], 'B': [(1,), (2,)], 'S': [('a',), ('b',)]}, 'AB': {'A': [(1, 2), (2, 1), (2, 2)], 'B': [(1,), (2,)]}, 'U4': {'A1': [(1,), (2,)], 'B1': [(2,), (3,)], 'C1': [(3,), (3,)], 'D1x': [(3,), (1,)]}, 'E': {'E': [(1, 2), (2, 3), (3, 1)]}}
 
 
 def check_sql(dialect, sql, stats, bad, text, pred):
